@@ -22,7 +22,8 @@ SHARED = {
     "C08": [("C39", "R4.", "the range checks see the integer the peer sent only if mpint decoding keeps its sign")],
     "C11": [("C10", "R2.", "traffic in flight behind a re-key request is tolerated up to the overflow allowance, counted from the request"),
             ("C10", "R5.need-rekey-only-when-idle", "a re-key started while a packet is half read loses traffic in flight")],
-    "C12": [("C39", "R1.pair-agreement:add_int", "the sequence number in UNIMPLEMENTED is a plain uint32 whatever its value"),
+    "C12": [("C01", "R2.seq-increment", "the sequence number echoed in UNIMPLEMENTED stays a uint32: the counter wraps modulo 2**32"),
+            ("C39", "R1.pair-agreement:add_int", "the sequence number in UNIMPLEMENTED is a plain uint32 whatever its value"),
             ("C09", "R5.reset-under-strict", "sequence numbers stay aligned across NEWKEYS so that the UNIMPLEMENTED reply names the right packet"),
             ("C01", "R2.msg-seqno", "the sequence number echoed in UNIMPLEMENTED is the packet's own"),
             ("C38", "R2.peer-data-operation-guarded:Packetizer.read_message", "reading a packet of an unknown type must not raise: the session would end instead of answering", "zero-expected")],
